@@ -19,6 +19,15 @@ BATCHING = ("timed_window", "partition_timeout", "timed_window_unique")
 LOSSY = ("latest", "timed_window_unique")
 
 
+def subops(op):
+    """The elementary operations of `op` ({"op":"multi","ops":[...]} = several operations in one loop callback)."""
+    return [s for sub in op["ops"] for s in subops(sub)] if op["op"] == "multi" else [op]
+
+
+def elementary(case):
+    return [s for op in case["ops"] for s in subops(op)]
+
+
 # ------------------------------------------------------------------ generation
 
 def gen_async_node(rng, kinds):
@@ -109,6 +118,18 @@ def choose_op(rng, run, nodes, st, opts):
     r = rng.random()
     awaiting = opts.get("awaiting", False)
     can_emit = (not awaiting) or all(f is None or f.done() for f in run.emits)
+    if (pend or jobs) and can_emit and rng.random() < opts.get("p_multi", 0.0):
+        # a completion and one or two emissions in ONE loop callback: the emission races the wake-ups the completion causes
+        if jobs and (not pend or rng.random() < 0.6):
+            subs = [{"op": "jobdone", "job": rng.choice(jobs)}]
+        else:
+            subs = [{"op": "sinkdone", "tok": rng.choice(pend)}]
+        for _ in range(rng.choice([1, 1, 2])):
+            st["val"] += 1
+            st["tag"] += 1
+            st["ref"] += 1
+            subs.append({"op": "emit", "node": rng.choice(sources), "val": st["val"], "md": [{"tag": st["tag"], "ref": st["ref"]}]})
+        return {"op": "multi", "ops": subs}
     if pend and r < 0.28:
         return {"op": "sinkdone", "tok": rng.choice(pend)}
     if jobs and r < 0.5:
@@ -214,7 +235,7 @@ def run_adaptive(nodes, rng, n_ops, opts=None, flavour="future"):
 
 
 def rerun(case):
-    nrefs = max([e.get("ref") or 0 for op in case["ops"] if op["op"] == "emit" for e in op.get("md", [])] + [0])
+    nrefs = max([e.get("ref") or 0 for op in elementary(case) if op["op"] == "emit" for e in op.get("md", [])] + [0])
 
     async def main(loop):
         run = graphlib.Run(case, loop=loop, consumer_flavour=case.get("flavour", "future"))
@@ -258,7 +279,7 @@ def reference_case(case):
             nd["mode"] = "sync"
             nd.setdefault("f", ["id"])
         nodes.append(nd)
-    ops = [dict(op, md=[]) for op in case["ops"] if op["op"] == "emit"]
+    ops = [dict(op, md=[]) for op in elementary(case) if op["op"] == "emit"]
     return {"mode": "sync", "nodes": nodes, "ops": ops}
 
 
@@ -296,7 +317,7 @@ def upstream_chain(nodes, i):
 def oracle_lossless(case, obs):
     """C02: every sink receives exactly what the synchronous semantics prescribe, once, in order."""
     nodes = case["nodes"]
-    if any(n["kind"] in LOSSY for n in nodes) or any(op["op"] == "jobfail" for op in case["ops"]):
+    if any(n["kind"] in LOSSY for n in nodes) or any(op["op"] == "jobfail" for op in elementary(case)):
         return []
     if any(n["kind"] == "sink" and (n.get("f") or [""])[0] == "failIf" for n in nodes):
         return []
@@ -344,7 +365,7 @@ def tag_owner(case):
     """tag -> index of the emit op that introduced it; ref -> tag."""
     owner, ref_tag = {}, {}
     k = 0
-    for op in case["ops"]:
+    for op in elementary(case):
         if op["op"] == "emit":
             for e in op.get("md", []):
                 owner[e["tag"]] = k
@@ -398,15 +419,17 @@ class Holders:
                                         [it for it in self.inside[e[1]] if not it[0] and False]
             elif e[0] == "start" and prev is not None:
                 self.consumers[e[2]] = prev[4]
-        if op["op"] in ("sinkdone", "sinkfail"):
-            self.consumers.pop(op["tok"], None)
+        for sub in subops(op):
+            if sub["op"] in ("sinkdone", "sinkfail"):
+                self.consumers.pop(sub["tok"], None)
         for e in o["log"]:
             if e[0] == "jobstart":
                 self.jobs[e[2]] = (e[1], e[3])
-        if op["op"] == "jobfail" and op["job"] in self.jobs:
-            d, val = self.jobs[op["job"]]
-            # the failed element is logged and dropped by map_async: it is no longer "held"
-            self.inside[d] = [it for it in self.inside.get(d, []) if graphlib.canon(it[2]) != val]
+        for sub in subops(op):
+            if sub["op"] == "jobfail" and sub["job"] in self.jobs:
+                d, val = self.jobs[sub["job"]]
+                # the failed element is logged and dropped by map_async: it is no longer "held"
+                self.inside[d] = [it for it in self.inside.get(d, []) if graphlib.canon(it[2]) != val]
 
     def holding(self, tag):
         out = []
@@ -435,8 +458,9 @@ def oracle_early_callback(case, obs):
                 job_val[e[2]] = (e[1], repr(e[3]))
             elif e[0] == "arrive":
                 arr_tags[(e[1], repr(e[3]))] = e[4]
-        if op["op"] == "jobfail" and op["job"] in job_val:
-            failed_tags |= set(arr_tags.get(job_val[op["job"]], []))
+        for sub in subops(op):
+            if sub["op"] == "jobfail" and sub["job"] in job_val:
+                failed_tags |= set(arr_tags.get(job_val[sub["job"]], []))
         for e in o["log"]:
             if e[0] == "fire" and ref_tag.get(e[1]) in failed_tags:
                 problems.append(("failed-callback:map_async", "op %d %r: the completion callback of ref %d fired although the mapped coroutine raised for its element"
@@ -530,8 +554,9 @@ def oracle_backpressure(case, obs):
                 consumers[e[2]] = (e[1], prev[4])
             elif e[0] == "emit" and e[1] in handed:
                 handed[e[1]] += 1
-        if op["op"] in ("sinkdone", "sinkfail"):
-            consumers.pop(op["tok"], None)
+        for sub in subops(op):
+            if sub["op"] in ("sinkdone", "sinkfail"):
+                consumers.pop(sub["tok"], None)
         stats = o.get("emits", [])
         for ix, stat in enumerate(stats):
             if stat == "done":
@@ -566,7 +591,7 @@ def oracle_backpressure(case, obs):
         srcs = nodes[z]["ups"]
         per = {s: [] for s in srcs}
         ix = 0
-        for op in case["ops"]:
+        for op in elementary(case):
             if op["op"] == "emit":
                 if op["node"] in per:
                     per[op["node"]].append(ix)
@@ -619,8 +644,9 @@ def oracle_windows(case, obs):
                 elif e[0] == "start" and in_emit:
                     # a consumer invocation started by this node's emission: the node is blocked until it finishes
                     open_tok[e[2]] = t
-            if op["op"] == "sinkdone" and op["tok"] in open_tok:
-                blocked.append((open_tok.pop(op["tok"]), o["now"]))
+            for sub in subops(op):
+                if sub["op"] == "sinkdone" and sub["tok"] in open_tok:
+                    blocked.append((open_tok.pop(sub["tok"]), o["now"]))
         end = obs[-1]["now"]
         for tok, t0 in open_tok.items():
             blocked.append((t0, end))
@@ -709,7 +735,7 @@ ORACLES = {"lossless": oracle_lossless, "early": oracle_early_callback, "balance
 
 
 def is_nontrivial(case, obs):
-    ops = [op["op"] for op in case["ops"]]
+    ops = [op["op"] for op in elementary(case)]
     return ops.count("emit") >= 2 and sum(len(o["log"]) for o in obs) >= 8
 
 
